@@ -313,6 +313,15 @@ def judge_drape(rec, merged, inputs, spec, where="live"):
         if ok and index != sorted(index):
             ok, detail = False, "input cells are not in input order in the merged model"
     rec.check("C16.drape", ok, op=where, cls="DrapeModel", attr="centroids", detail=detail)
+    # the two ways the format names a cell's prism agree: the prism column of the layers, and the (first layer, count) of the prisms
+    pr, ly = np.asarray(merged.prisms), np.asarray(merged.layers)
+    bad = []
+    for i, p in enumerate(pr.tolist()):
+        first, count = int(p[3]), int(p[4])
+        col = ly[first: first + count, 0].astype(int).tolist()
+        if col != [i] * count:
+            bad.append((i, first, count, col))
+    rec.check("C16.drape", not bad, op=where, cls="DrapeModel", attr="prism-column", detail=f"{len(spec['inputs'])} inputs merged: prisms (index, first layer, count, prism column of those layers) {bad[:4]}")
     rec.check("C16.drape", merged.n_cells == len(exp_c) + 2 * (len(spec["inputs"]) - 1), op=where, cls="DrapeModel", attr="ghost-count", detail=f"{merged.n_cells} merged cells for {len(exp_c)} input cells and {len(spec['inputs']) - 1} joins")
     if ok:
         from geoh5py.shared import INTEGER_NDV
